@@ -1,5 +1,5 @@
 (* C16 -- TURN Allocate requests: instances of the STUN theorems for the long-term key. *)
-From Coq Require Import ZArith Lia List Bool.
+From Coq Require Import ZArith Lia List Bool FinFun.
 From RV Require Import Lib.Wrap.
 From RV Require Import Gen.StunCodes.
 From RV Require Import Gen.TurnConsts.
@@ -10,6 +10,9 @@ From RV Require Import Proofs.StunLibProofs.
 From RV Require Import Proofs.StunProofs.
 Import ListNotations.
 Open Scope Z_scope.
+
+(* conversion hint only: unfold these wrappers before the encoder they wrap *)
+Strategy expand [allocate_auth_bytes allocate_plain_bytes].
 
 Definition wf_text (s : list Z) : Prop := bytes s /\ utf8_valid s = true /\ zlen s < 65536.
 Definition wf_txid (t : list Z) : Prop := bytes t /\ length t = 12%nat.
@@ -38,6 +41,12 @@ Proof.
            (allocate_auth_wf txid user realm nonce Ht Hu Hr Hn) Hmac).
 Qed.
 
+Lemma expected_allocate_auth txid user realm nonce :
+  expected (allocate_auth txid user realm nonce) =
+  mkDec StunClass_Request StunMethod_Allocate txid None None None None (Some realm) (Some nonce) None false
+        (Some DEFAULT_TURN_LIFETIME).
+Proof. reflexivity. Qed.
+
 (* and a server using the model's decoder reads back REALM, NONCE and LIFETIME = 600 *)
 Theorem turn_allocate_decodes : forall mac hash txid user realm nonce pass,
   mac20 mac -> wf_txid txid -> wf_text user -> wf_text realm -> wf_text nonce ->
@@ -47,7 +56,135 @@ Theorem turn_allocate_decodes : forall mac hash txid user realm nonce pass,
     d_realm d = Some realm /\ d_nonce d = Some nonce /\ d_lifetime d = Some DEFAULT_TURN_LIFETIME.
 Proof.
   intros mac hash txid user realm nonce pass Hmac Ht Hu Hr Hn Hsz.
-  eexists. split.
-  - apply decode_encode; [apply allocate_auth_wf; assumption | assumption | exact Hsz].
-  - repeat split.
+  pose proof (decode_encode mac (allocate_auth txid user realm nonce) (Some (long_term_key hash user realm pass)) true
+                (allocate_auth_wf txid user realm nonce Ht Hu Hr Hn) Hmac Hsz) as H.
+  rewrite expected_allocate_auth in H.
+  eexists. split; [exact H |]. cbn [d_method d_class d_txid d_realm d_nonce d_lifetime]. repeat split.
 Qed.
+
+(* ================================================================== the retry loop: which key signs request n *)
+Lemma alloc_loop_head mac hash user pass fuel realm nonce txids resps req :
+  nth_error (alloc_loop mac hash user pass fuel (Some (realm, nonce)) txids resps) 0 = Some req ->
+  exists tx, nth_error txids 0 = Some tx /\ req = allocate_auth_bytes mac hash tx user realm nonce pass.
+Proof.
+  destruct fuel as [| f]; [discriminate |]. destruct txids as [| tx txs]; [discriminate |].
+  cbn [alloc_loop nth_error]. intros H. inversion H. exists tx. split; reflexivity.
+Qed.
+
+(* every request after the first is the authenticated Allocate for the challenge the server sent
+   in answer to the previous request: its REALM, NONCE and its key MD5(user:realm:pass) come from
+   that challenge, never from an earlier one -- for every challenge sequence and any retry bound *)
+Theorem alloc_loop_key : forall mac hash user pass fuel info txids resps i req,
+  nth_error (alloc_loop mac hash user pass fuel info txids resps) (S i) = Some req ->
+  exists realm nonce tx,
+    nth_error resps i = Some (Some (realm, nonce)) /\ nth_error txids (S i) = Some tx /\
+    req = allocate_auth_bytes mac hash tx user realm nonce pass.
+Proof.
+  intros mac hash user pass. induction fuel as [| f IH]; intros info txids resps i req H; [discriminate |].
+  destruct txids as [| tx txs]; [discriminate |].
+  cbn [alloc_loop nth_error] in H.
+  destruct resps as [| [[realm nonce] |] rs]; try (destruct i; discriminate).
+  destruct i as [| i'].
+  - apply alloc_loop_head in H. destruct H as (tx' & Htx & ->).
+    exists realm, nonce, tx'. repeat split; assumption.
+  - apply IH in H. destruct H as (r & n & tx' & Hr & Htx & ->).
+    exists r, n, tx'. repeat split; assumption.
+Qed.
+
+Theorem turn_retry_integrity : forall mac hash user pass txids resps i req realm nonce,
+  mac20 mac -> Forall wf_txid txids -> wf_text user -> wf_text realm -> wf_text nonce ->
+  nth_error (allocate_requests mac hash user pass txids resps) (S i) = Some req ->
+  nth_error resps i = Some (Some (realm, nonce)) ->
+  exists tx, nth_error txids (S i) = Some tx /\
+    req = allocate_auth_bytes mac hash tx user realm nonce pass /\
+    let off := Z.to_nat (20 + zlen (cbs (attr_chunks (allocate_auth tx user realm nonce)))) in
+    firstn 24 (skipn off req) =
+      be16 ATTR_MESSAGE_INTEGRITY ++ be16 20
+      ++ mac (hash (user ++ [58] ++ realm ++ [58] ++ pass))
+             (write_length_field (firstn off req) (Z.of_nat off + 24 - 20)).
+Proof.
+  intros mac hash user pass txids resps i req realm nonce Hmac Htx Hu Hr Hn Hreq Hresp.
+  unfold allocate_requests in Hreq. apply alloc_loop_key in Hreq.
+  destruct Hreq as (r & n & tx & Hr' & Htx' & ->). rewrite Hresp in Hr'. inversion Hr'; subst r n.
+  exists tx. split; [assumption |]. split; [reflexivity |].
+  apply turn_allocate_integrity; try assumption.
+  rewrite Forall_forall in Htx. apply Htx. eapply nth_error_In. exact Htx'.
+Qed.
+
+(* the first request is the unauthenticated one *)
+Lemma allocate_requests_first mac hash user pass tx txs resps :
+  nth_error (allocate_requests mac hash user pass (tx :: txs) resps) 0 = Some (allocate_plain_bytes mac tx).
+Proof. reflexivity. Qed.
+
+(* ================================================================== channel numbers *)
+Definition chan_ok (c : Z) : Prop := 16384 <= c <= 32767.
+
+Theorem chan_seq_range : forall k next, chan_ok next -> Forall chan_ok (chan_seq k next).
+Proof.
+  induction k as [| k IH]; intros next Hn; [constructor |].
+  cbn [chan_seq chan_step fst snd]. constructor; [assumption |]. apply IH.
+  unfold chan_ok, CHANNEL_WRAP_AT, CHANNEL_WRAP_TO in *. destruct (Z.geb_spec next 32767); lia.
+Qed.
+
+Lemma chan_seq_init : forall k next, 16384 <= next -> next + Z.of_nat k <= 32768 ->
+  chan_seq k next = map (fun i => next + Z.of_nat i) (seq 0 k).
+Proof.
+  induction k as [| k IH]; intros next Hlo Hhi; [reflexivity |].
+  cbn [chan_seq chan_step fst snd seq map]. f_equal; [lia |].
+  unfold CHANNEL_WRAP_AT, CHANNEL_WRAP_TO. destruct (Z.geb_spec next 32767) as [Hge | Hlt].
+  - assert (k = 0%nat) by lia. subst. reflexivity.
+  - rewrite IH by lia. rewrite <- seq_shift, map_map. apply map_ext. intros i. lia.
+Qed.
+
+(* the first 16384 channel numbers a client hands out are pairwise distinct and start at 0x4000 *)
+Theorem chan_seq_distinct : forall k, Z.of_nat k <= 16384 -> NoDup (chan_seq k CHANNEL_FIRST).
+Proof.
+  intros k Hk. unfold CHANNEL_FIRST. rewrite chan_seq_init by lia.
+  apply Injective_map_NoDup; [| apply seq_NoDup].
+  intros a b H. lia.
+Qed.
+
+(* ================================================================== ChannelData *)
+Theorem channeldata_roundtrip : forall ch d pad, chan_ok ch -> zlen d < 65536 ->
+  parse_channel_data (channel_data ch d ++ pad) = Some (ch, d) /\
+  zlen (channel_data ch d) = 4 + zlen d /\
+  64 <= byte_at (channel_data ch d) 0 < 128.
+Proof.
+  intros ch d pad Hc Hd. unfold chan_ok in Hc. pose proof (zlen_nonneg d) as H0. pose proof (zlen_nonneg pad) as Hp0.
+  assert (Hlen : zlen (channel_data ch d) = 4 + zlen d).
+  { unfold channel_data. rewrite !zlen_app, !zlen_be16. lia. }
+  split; [| split; [exact Hlen |]].
+  - unfold parse_channel_data.
+    replace (zlen (channel_data ch d ++ pad) <? 4) with false by (symmetry; apply Z.ltb_ge; rewrite zlen_app; lia).
+    rewrite zlen_app, Hlen.
+    unfold channel_data, be16. rewrite <- !app_assoc. cbn [app byte_at nth skipn].
+    rewrite cast_u16_small by lia. rewrite !of_be16_be16 by lia.
+    replace ((16384 <=? ch) && (ch <=? 32767) && (zlen d <=? 4 + zlen d + zlen pad - 4)) with true.
+    + rewrite firstn_app_exact by (unfold zlen; lia). reflexivity.
+    + symmetry. rewrite !andb_true_iff. repeat split; apply Z.leb_le; lia.
+  - unfold channel_data, be16. cbn [app byte_at nth]. lia.
+Qed.
+
+(* over UDP the datagram is the message itself *)
+Lemma udp_send_id m : udp_send m = m.
+Proof. reflexivity. Qed.
+
+(* over TCP: a 16-bit length and then the unchanged, unpadded message *)
+Theorem tcp_send_shape : forall m, zlen m < 65536 ->
+  skipn 2 (tcp_send m) = m /\ of_be16 (byte_at (tcp_send m) 0) (byte_at (tcp_send m) 1) = zlen m.
+Proof.
+  intros m Hm. pose proof (zlen_nonneg m). unfold tcp_send, be16. cbn [app skipn byte_at nth].
+  rewrite cast_u16_small by lia. split; [reflexivity | apply of_be16_be16; lia].
+Qed.
+
+(* listed finding turn_tcp_length_prefix: a standard TURN server reading the TCP stream (STUN
+   messages framed by their own length field, ChannelData padded to four) does not find the
+   message the client meant to send -- neither for a STUN request nor for ChannelData *)
+Definition tcp_witness_txid : list Z := [1; 2; 3; 4; 5; 6; 7; 8; 9; 10; 11; 12].
+Theorem turn_tcp_prefix_refuted :
+  (let m := allocate_plain_bytes (fun _ _ => repeat 0 20) tcp_witness_txid in
+   rfc_tcp_first m = Some m /\ rfc_tcp_first (tcp_send m) <> Some m) /\
+  (let c := channel_data 16384 [1; 2; 3; 4; 5] in
+   parse_channel_data c = Some (16384, [1; 2; 3; 4; 5]) /\ rfc_tcp_first (tcp_send c) <> Some c /\
+   (zlen (tcp_send c) - 2) mod 4 <> 0).
+Proof. vm_compute. repeat split; congruence. Qed.
